@@ -47,7 +47,7 @@ func TestVerifBoundedC01MapModel(t *testing.T) {
 	idBlock, _ := blocks.NewBlockWithCid([]byte("inline"), cid.NewCidV1(cid.Raw, idh))
 	idh0, _ := mh.Sum([]byte{}, mh.IDENTITY, -1)
 	idEmpty, _ := blocks.NewBlockWithCid([]byte{}, cid.NewCidV1(cid.Raw, idh0))
-	blks := []blocks.Block{mk("alpha", 0, 0), mk("alpha", 1, cid.Raw), mk("beta", 1, cid.DagProtobuf), idBlock, idEmpty}
+	blks := []blocks.Block{mk("alpha", 0, 0), mk("alpha", 1, cid.Raw), mk("beta", 1, cid.DagProtobuf), idBlock, idEmpty, mk("", 1, cid.Raw)} // the last one: a stored block of length zero
 	isID := func(b blocks.Block) bool { return b == idBlock || b == idEmpty }
 	type op struct {
 		kind string
@@ -120,6 +120,16 @@ func TestVerifBoundedC01MapModel(t *testing.T) {
 						bad = fmt.Sprintf("step %d: GetSize(%s)=%d,%v model %d", i, b.Cid(), sz, serr, len(want))
 					} else if !ok && (!ipld.IsNotFound(serr) || sz != -1) {
 						bad = fmt.Sprintf("step %d: GetSize(%s) of an absent block: %d,%v", i, b.Cid(), sz, serr)
+					}
+					if v, isViewer := bs.(Viewer); isViewer && bad == "" {
+						var seen []byte
+						called := false
+						verr := v.View(ctx, b.Cid(), func(data []byte) error { seen, called = append([]byte{}, data...), true; return nil })
+						if ok && (verr != nil || !called || !bytes.Equal(seen, want)) {
+							bad = fmt.Sprintf("step %d: View(%s) err=%v called=%v data %q, model has %q", i, b.Cid(), verr, called, seen, want)
+						} else if !ok && (called || !ipld.IsNotFound(verr)) {
+							bad = fmt.Sprintf("step %d: View(%s) of an absent block: err=%v called=%v", i, b.Cid(), verr, called)
+						}
 					}
 				}
 				if bad == "" {
